@@ -28,6 +28,7 @@ import (
 	"errors"
 	"fmt"
 	"io"
+	"log/slog"
 	"math/rand"
 	"net/http"
 	"net/http/httptest"
@@ -123,6 +124,8 @@ func (e *ExchState) Exchange(_ context.Context, _ arrow.RecordBatch, out *vgirpc
 }
 
 func init() {
+	// the code under test reports recovered panics through slog; keep the driver output small
+	slog.SetDefault(slog.New(slog.NewTextHandler(io.Discard, nil)))
 	vgirpc.RegisterStateType(&ProdState{})
 	vgirpc.RegisterStateType(&ExchState{})
 }
